@@ -10,8 +10,8 @@
 EXTENDS FeedsVote, IOUtils, Json
 
 CONSTANTS Depth, PowSet, MaxLen, MaxFeedsSet, StepSet, UpdSet, MinISet, SpanSet
-VARIABLES script
-gvars == <<vars, script>>
+VARIABLES script, par0
+gvars == <<vars, script, par0>>
 
 Idx(x) == CHOOSE i \in 1..9 : ToString(x) = "u" \o ToString(i)
 
@@ -34,8 +34,8 @@ GInit ==
     /\ h = 2 /\ par \in GPars
     /\ power = [v \in Voter |-> 0]
     /\ vote = [v \in Voter |-> NoVote] /\ total = NoVote /\ idx = {}
-    /\ lock = [v \in Voter |-> NoLock] /\ feeds = {} /\ lastUpd = 0 /\ out = "init"
-    /\ script = <<>>
+    /\ lock = [v \in Voter |-> NoLock] /\ feeds = {} /\ lastUpd = 0 /\ fpar = par /\ out = "init"
+    /\ script = <<>> /\ par0 = par
 
 AtEnd == Len(script) >= Depth - 2
 
@@ -58,18 +58,22 @@ GNext ==
           /\ p # power[v]
           /\ SetPower(v, p)
           /\ script' = Append(script, [e |-> "SetPower", a |-> Idx(v), p |-> p])
+    \/ \E p \in GPars :
+          /\ ~AtEnd /\ p.upd = par.upd
+          /\ SetPar(p)
+          /\ script' = Append(script, [e |-> "SetPar", maxFeeds |-> p.maxFeeds, step |-> p.step, minI |-> p.minI, maxI |-> p.maxI])
     \/ \E F \in SUBSET Signal :
           /\ EndBlock(F)
           \* one script per block end, whatever the admissible tie choice
           /\ F = CHOOSE G \in SUBSET Signal : (IF IsUpdate THEN TopSel(G) ELSE G = {})
           /\ script' = Append(script, [e |-> "EndBlock"])
 
-GSpec == GInit /\ [][GNext]_gvars
+GSpec == GInit /\ [][GNext /\ par0' = par0]_gvars
 
 Emit ==
     TLCGet("level") = Depth =>
-        Serialize(<<[c |-> [allowed |-> <<"d1">>, maxFeeds |-> par.maxFeeds, step |-> par.step, minI |-> par.minI,
-                            maxI |-> par.maxI, upd |-> par.upd],
+        Serialize(<<[c |-> [allowed |-> <<"d1">>, maxFeeds |-> par0.maxFeeds, step |-> par0.step, minI |-> par0.minI,
+                            maxI |-> par0.maxI, upd |-> par0.upd],
                      steps |-> script]>>,
                   IOEnv.GEN_OUT,
                   [format |-> "NDJSON", charset |-> "UTF-8", openOptions |-> <<"WRITE", "CREATE", "APPEND">>])
